@@ -670,17 +670,22 @@ _FE = [GT._getConditions, GT._setupSubModels, GT.getLocalEq, GT.getEq, GT.getInt
        DP.BoundaryConditions.applyBoundaryConditionsToFluxes, DIF.DiffusionModel.setup, DIF.DiffusionModel.getdXdt, SPM.SinglePhaseModel._getFluxes]
 _AE = ["pycalphad lays its arrays out in alphabetical element order (documented contract) and is itself independent of the listing order: "
        "its results are deterministic functions of the conditions keyed by element name",
-       "the reference element is listed first and VA last (what GeneralThermodynamics.__init__ establishes)"]
+       "the reference element is listed first and VA last (what GeneralThermodynamics.__init__ establishes)",
+       "backend contracts: mole fractions and phase amounts of returned composition sets > 0, atomic mobilities > 0, diagonal interdiffusivities > 0; "
+       "T > 0, mobility correction factors > 0 (divisors of the u-fraction, impingement and von Neumann time-step formulas are then non-zero)",
+       "where a parameter set lists one rotation (+ one swap) instead of all orders: these generate all orders, and each claim holds for all inputs"]
 _SE = ["pycalphad Workspace / kawin.thermo.LocalEquilibrium.local_equilibrium: uninterpreted functions of (phase, element name; conditions by name)",
        "kawin.thermo.Mobility.inverseMobility[_from_diffusivity], FreeEnergyHessian.dMudX: uninterpreted matrices over the alphabetically ordered non-reference elements",
        "mobility callables of the database: uninterpreted functions of the composition set's degrees of freedom",
        "GeneralThermodynamics._getPrecCompositionSetSamplingDF (pycalphad point sampling): uninterpreted"]
-_BE = {"solutes": "2 (all 2 orders) and 3 (all 6 orders); reference element sorting first / in the middle / last", "phases": "matrix + one precipitate"}
+_BE = {"solutes": "2 (both orders) and 3 (all 6 orders, or a 3-cycle + a swap where noted in the parameters); reference element sorting first / in the middle / last",
+       "phases": "matrix + one precipitate", "conditions": "one (x, T) point per call; 1-2 radii / Gibbs-Thomson values"}
 
 _FP = [Constraints.computeDTfromPSD, Constraints.computeDTfromNucleationRate, Constraints.computeDTfromTemperature,
        Constraints.computeDTfromRcrit, Constraints.computeDTfromVolume, PrecipitateModel.getDt, PrecipitateModel._calcNucleationSites,
        PrecipitateModel._calcMassBalance, PBM.getDTEuler, PBM.MomentFromN, PBM.WeightedMomentFromN]
-_AP = ["per-phase size grids rmin + i*dr with rmin, dr > 0; populations >= 0; molar volumes > 0; area/volume factors > 0",
+_AP = ["where a parameter set lists a single permutation instead of all: a 3-cycle and a transposition generate all orders, and each claim holds for all inputs",
+       "per-phase size grids rmin + i*dr with rmin, dr > 0; populations >= 0; molar volumes > 0; area/volume factors > 0",
        "recorded time stamps strictly increase, finalTime > current time (C05)",
        "growth rates, nucleation rates, critical radii, driving forces, radii, temperatures: arbitrary reals",
        "real arithmetic: sums over phases are order independent up to rounding"]
@@ -699,7 +704,7 @@ HARNESSES = [
             params={"quick": [{"P": 2, "n": 2, "N": 2, "checks": ["volume", "temperature", "rcrit"]},
                               {"P": 2, "n": 2, "N": 2, "checks": ["psd", "nucleation"], "iso": True, "diss": [0, 1]},
                               {"P": 2, "n": 2, "N": 1}, {"P": 3, "n": 2, "N": 2, "checks": ["volume", "temperature"]}],
-                    "thorough": [{"P": 3, "n": 2, "N": 2, "checks": ["volume", "temperature", "rcrit"]},
+                    "thorough": [{"P": 3, "n": 2, "N": 2, "checks": ["rcrit", "temperature"]}, {"P": 3, "n": 3, "N": 2, "checks": ["volume", "temperature"]},
                                  {"P": 3, "n": 2, "N": 1, "checks": ["nucleation", "temperature"]},
                                  {"P": 2, "n": 2, "N": 2, "checks": ["psd", "rcrit", "temperature"], "iso": True, "diss": [0, 1]},
                                  {"P": 2, "n": 2, "N": 2, "checks": ["volume", "nucleation"]}]}),
@@ -711,7 +716,8 @@ HARNESSES = [
                     "thorough": [{"sites": list(s), "parents": [[], [0], [0, 1]]} for s in itertools.product(("bulk", "disl", "gb", "edge", "corner"), repeat=3)][::9]}),
     Harness("C11.mass_balance", mass_balance, functions=_FP, assumptions=_AP, bounds={"phases": "P", "elements": "E", "size classes": "n"},
             opts={"max_paths": 3000}, budget={"quick": 150.0, "thorough": 1500.0},
-            params={"quick": [{"P": 3, "n": 2, "E": 1}, {"P": 2, "n": 2, "E": 2, "infinite": [False, True, True]}],
+            params={"quick": [{"P": 3, "n": 2, "E": 1, "sigma": [1, 2, 0]}, {"P": 3, "n": 2, "E": 1, "sigma": [1, 0, 2], "infinite": [True, False, True]},
+                              {"P": 2, "n": 2, "E": 2, "infinite": [False, True, True]}],
                     "thorough": [{"P": 3, "n": 3, "E": 1}, {"P": 3, "n": 2, "E": 2, "infinite": [True, False, True]}]}),
     # ---------------------------------------------------------------- element order
     Harness("C11.diffusivity", diffusivity, functions=_FE, assumptions=_AE, stubs=_SE, bounds=_BE,
